@@ -56,6 +56,7 @@ func main() {
 	plan := fs.String("plan", "", "plan file")
 	n := fs.Int("n", 30, "")
 	idx := fs.Int("idx", 0, "")
+	from := fs.Int("from", 0, "")
 	cliDir := fs.String("cli-dir", "", "directory with the CLI binaries built from the tree (C15)")
 	fs.Parse(os.Args[2:])
 	if *cliDir != "" {
@@ -70,7 +71,7 @@ func main() {
 		os.Exit(runWorker(workerCfg{prop: *prop, tier: *tier, seeds: parseSeeds(*seeds), shard: *shard, nshards: *nshards,
 			count: *count, perSeed: *perSeed, out: *out, journal: *journal, maxViols: 12}))
 	case "digest":
-		os.Exit(runDigest(*prop, *tier, *seed, *n))
+		os.Exit(runDigest(*prop, *tier, *seed, *from, *n))
 	case "gen":
 		eng := engines[*prop]
 		b, _ := json.MarshalIndent(eng.Gen(*seed, *idx, *tier), "", " ")
@@ -81,7 +82,7 @@ func main() {
 			fmt.Fprintln(os.Stderr, err)
 			os.Exit(2)
 		}
-		rr, err := engines[*prop].Run(b)
+		rr, err := runMaybeSeq(engines[*prop], b)
 		if err != nil {
 			fmt.Fprintln(os.Stderr, err)
 			os.Exit(2)
@@ -95,6 +96,24 @@ func main() {
 	}
 }
 
+// runMaybeSeq executes a plan, or {"sequence":[plan...]}: all of them in this process, result of the last.
+func runMaybeSeq(eng *Engine, b []byte) (*RunResult, error) {
+	var seq struct {
+		Sequence []json.RawMessage `json:"sequence"`
+	}
+	if json.Unmarshal(b, &seq) == nil && len(seq.Sequence) > 0 {
+		var rr *RunResult
+		var err error
+		for _, p := range seq.Sequence {
+			if rr, err = eng.Run(p); err != nil {
+				return nil, err
+			}
+		}
+		return rr, nil
+	}
+	return eng.Run(b)
+}
+
 // replay re-executes a replay file written by drive and reports whether the
 // recorded violation reproduces.
 func replay(path string) int {
@@ -104,10 +123,11 @@ func replay(path string) int {
 		return 2
 	}
 	var rf struct {
-		Property string          `json:"property"`
-		Oracle   string          `json:"oracle"`
-		Site     string          `json:"site"`
-		Plan     json.RawMessage `json:"plan"`
+		Property string            `json:"property"`
+		Oracle   string            `json:"oracle"`
+		Site     string            `json:"site"`
+		Plan     json.RawMessage   `json:"plan"`
+		Prefix   []json.RawMessage `json:"prefix"`
 	}
 	if err := json.Unmarshal(b, &rf); err != nil {
 		fmt.Fprintln(os.Stderr, err)
@@ -118,12 +138,33 @@ func replay(path string) int {
 		fmt.Fprintln(os.Stderr, "replay file names unknown property", rf.Property)
 		return 2
 	}
+	for i, pp := range rf.Prefix {
+		if _, err := eng.Run(pp); err != nil {
+			fmt.Fprintf(os.Stderr, "prefix plan %d: %v\n", i, err)
+			return 2
+		}
+	}
 	rr, err := eng.Run(rf.Plan)
 	if err != nil {
 		fmt.Fprintln(os.Stderr, err)
 		return 2
 	}
-	fmt.Printf("# replay %s: recorded %s site=%s; run digest %s\n", path, rf.Oracle, rf.Site, rr.Digest)
+	fmt.Printf("# replay %s: recorded %s site=%s; run digest %s (after %d prefix plans)\n", path, rf.Oracle, rf.Site, rr.Digest, len(rf.Prefix))
+	if rf.Oracle == historyOracle[rf.Property] && rf.Oracle != "" {
+		wd, _ := os.MkdirTemp("", "verif-replay-")
+		defer os.RemoveAll(wd)
+		alone, err := execPlanFresh(wd, rf.Plan, rf.Property)
+		if err != nil {
+			fmt.Fprintln(os.Stderr, err)
+			return 2
+		}
+		if alone.Digest == rr.Digest {
+			fmt.Println("# no violation on this tree: same result alone and after the prefix")
+			return 0
+		}
+		fmt.Printf("VIOLATION property=%s replay=%s\n  oracle=%s site=history\n  result digest %s after the prefix, %s alone in a fresh process\n", rf.Property, path, rf.Oracle, rr.Digest, alone.Digest)
+		return 1
+	}
 	if len(rr.Violations) == 0 && rf.Oracle == "C13/data-race" {
 		// same schedule, same results; only the race runtime's view of sync.Pool edges varies
 		wd, _ := os.MkdirTemp("", "verif-replay-")
